@@ -22,6 +22,7 @@ EXTRA = {
     "FT5": ["C01"],
     "BM1": ["C02"],
     "MD9x": ["C09"],
+    "EF1": ["C07", "C03"],   # create only when the name is definitively absent (no error masquerading as NotFound): unique names
 }
 for _r, _ps in EXTRA.items():
     if _r in RULES:
